@@ -107,7 +107,7 @@ func IntDom(n int) *Dom[int] {
 	return d
 }
 
-var strAlphabet = []string{"", "a", "A", "ab", "b", "B", "k1", "\"k1\"", "a\"q", "a\\b", "<>&", "é", "1", "10", "0", "null", "a b", " ", "zz", "Zz", "{}", "[1]", "true"}
+var strAlphabet = []string{"", "a", "A", "ab", "b", "B", "k1", "\"k1\"", "a\"q", "a\\b", "b\aell", "<>&", "é", "1", "\x7f", "10", "0", "null", "a b", " ", "zz", "Zz", "{}", "[1]", "true", "\u2028"}
 
 func StrDom(n int) *Dom[string] {
 	d := &Dom[string]{Name: "string", Cmps: strCmps, Fmt: func(v string) string { return fmt.Sprintf("%q", v) }, Builtin: builtinFor[string]()}
@@ -189,6 +189,42 @@ func PDom() *Dom[*PS] {
 	d.Alpha = append(d.Alpha, psPool...)
 	d.Probe = []*PS{{"zz"}, {""}, {"a"}}
 	d.Wide = func(r *core.R) *PS { return &PS{Name: string(rune('a' + r.Intn(26)))} }
+	return d
+}
+
+// PTwinDom: pointer elements among which several DISTINCT pointers have deeply
+// equal pointees (and one is nil). Identity is the pointer, not what it points
+// to: whoever compares elements with reflect.DeepEqual or by formatting them
+// confuses the twins.
+var psTwins = []*PS{nil, {"a"}, {"a"}, {"b"}, {"b"}, {"a"}, {"c"}, {""}, {""}}
+
+func PTwinDom() *Dom[*PS] {
+	d := PDom()
+	d.Name = "pointer-twins"
+	d.Alpha = append([]*PS(nil), psTwins...)
+	d.Probe = []*PS{{"a"}, {"zz"}, {""}}
+	return d
+}
+
+// FatDom: elements of a few kilobytes (see Fat): code paths chosen by element
+// size, and every place that takes the address of a loop variable.
+func FatDom(n int) *Dom[Fat] {
+	mk := func(id int) Fat {
+		f := Fat{ID: id}
+		f.Pad[0], f.Pad[599] = int64(id), int64(-id)
+		return f
+	}
+	byID := func(a, b Fat) int { return cmp.Compare(a.ID, b.ID) }
+	d := &Dom[Fat]{Name: "fat-struct", Fmt: func(v Fat) string { return v.String() }}
+	d.Cmps = []NamedCmp[Fat]{{"natural", byID}, {"reversed", func(a, b Fat) int { return byID(b, a) }},
+		{"coarse12", func(a, b Fat) int { return cmp.Compare(floorDiv(a.ID, 12), floorDiv(b.ID, 12)) }},
+		{"natural-unnormalised", func(a, b Fat) int { return scale(byID(a, b), uint64(a.ID)^uint64(b.ID)) }}}
+	for i := 0; i < n; i++ {
+		d.Alpha = append(d.Alpha, mk(i*6))
+		d.Probe = append(d.Probe, mk(i*6+3))
+	}
+	d.Probe = append(d.Probe, mk(-3), mk(n*6+50))
+	d.Wide = func(r *core.R) Fat { return mk(r.Intn(1<<20) * 6) }
 	return d
 }
 
